@@ -314,8 +314,9 @@ def tagged_unions(chk, HG, n):
         conv = Converter(detailed_validation=g["detailed"], forbid_extra_keys=True, omit_if_default=g["conv"]["oid"])
         U = Union[tuple(R.classes[i] for i in members)]
         tag = rng.choice(["_type", "kind", "it's"])
+        dflt = rng.choice(members) if rng.random() < 0.5 else None
         try:
-            configure_tagged_union(U, conv, tag_name=tag)
+            configure_tagged_union(U, conv, tag_name=tag, **({} if dflt is None else {"default": R.classes[dflt]}))
         except Exception as e:  # noqa: BLE001
             chk.violation("C10 oracle: configure_tagged_union failed on a forbidding converter: " + repr(e)[:200],
                           {"check": "tag", "gworld": g})
@@ -356,6 +357,20 @@ def tagged_unions(chk, HG, n):
                 walk(e)
                 if views != [(R.classes[ci], {"zzz"})]:
                     chk.violation(f"C10 oracle: tagged union + extra key: reported {views}, expected exactly {{'zzz'}}", case)
+            if dflt is not None:
+                # default member: a payload of the default member with an unknown tag value, or without the tag, is
+                # structured as the default member -- the tag key is not an extra there either
+                xd = R.val(HG.instance(g, dflt))
+                try:
+                    pd = conv.unstructure(xd, unstructure_as=U)
+                    for variant, q in (("unknown-tag", {**pd, tag: "no-such-member"}), ("missing-tag", {k: v for k, v in pd.items() if k != tag})):
+                        chk.note("tagged-union-default:" + variant)
+                        yd = conv.structure(q, U)
+                        if not (yd == xd and type(yd) is type(xd)):
+                            chk.violation(f"C10 oracle: tagged union with default, {variant}: got {yd!r}, expected {xd!r}", dict(case, default=dflt))
+                except Exception as e:  # noqa: BLE001
+                    chk.violation("C10 oracle: tagged union with a default member on a forbidding converter rejects a payload of the "
+                                  "default member with an unknown / missing tag (tag counted as extra?): " + repr(e)[:200], dict(case, default=dflt))
 
 
 def f9_witness(chk, drv):
